@@ -22,6 +22,7 @@ Structural necessary conditions, each of which breaks the behaviour when violate
 Not decided: that conditions sit at even and branches at odd positions, and the
 polarity of the accumulator tests (value-level).
 """
+import re
 from .core import callee_of, callee_path, strip_refs, show_expr, op_const, expr_mentions
 from .engine import Inconclusive
 from .roles import Roles
@@ -495,6 +496,33 @@ def run(ctx):
         for e in (e_if, e_alt, e_and, e_or):
             ctx.check(e.table.role == "lazy", "K1.lazy", "%s is a lazy-table entry (%s)" % (e.key, cfg), "%r is in the %s table: all its operands are evaluated before it runs" % (e.key, e.table.role), where=facts.body(e.table.const_key).where())
         ctx.check(len({e_if.fn_key, e_and.fn_key, e_or.fn_key}) == 3, "K1.distinct", "if, and, or have their own implementations (%s)" % cfg, "two of if/and/or share one function", where=facts.body(e_if.table.const_key).where())
+        # an operand is evaluated only where control has decided that it is needed: never as the *eager argument* of a
+        # default-taking combinator — `decided.unwrap_or(evaluate(last)?)`, `x.or(evaluate(..).ok())`, `cond.then_some(evaluate(..))`
+        # evaluate their argument before looking at the receiver, so the operand is evaluated (errors, logs) even when an
+        # earlier operand decided (seeded C05-Q).  The lazy spellings (`unwrap_or_else`, `or_else`, `then`, `match`) take a closure.
+        interp = set(roles.sinks) | set(roles.evaluators)
+        reaches_interp = {}
+
+        def _interprets(k_):
+            if k_ not in reaches_interp:
+                reaches_interp[k_] = k_ in interp or bool(facts.reach([k_]) & interp)
+            return reaches_interp[k_]
+        EAGER = re.compile(r"^std::(option::Option|result::Result)::<.*>::(unwrap_or|or|and|map_or|ok_or|xor|zip|insert|get_or_insert)$|^std::bool::<impl bool>::then_some$|^core::bool::<impl bool>::then_some$")
+        for e in (e_if, e_and, e_or):
+            u_ = Unit(roles, e.fn_key, extended=True)
+            n_eager = 0
+            for s_ in u_.calls(lambda c: EAGER.search(c["path"]) is not None):
+                for a_ in s_.term["args"][1:2]:
+                    x_ = s_.body.xtrace(a_)
+                    hit = []
+                    expr_mentions(x_, lambda y: y[0] == "call" and y[1] is not None and y[1].get("local") and _interprets(y[1]["key"]) and not hit.append(y[1]["path"]))
+                    if hit:
+                        n_eager += 1
+                        ctx.fail("K3.eager-default", "%s|%s(%s)" % (e.key, callee_path(s_.term).rsplit("::", 1)[1], hit[0].rsplit("::", 1)[-1]),
+                                 "%s evaluates an operand as the eager argument of %s: the argument (%s) is evaluated before the receiver is looked at, so the operand is evaluated — with its errors and log lines — even when an earlier operand has decided" % (e.key, callee_path(s_.term).rsplit("::", 1)[1], hit[0]),
+                                 where=s_.where(), fn=s_.body.key)
+            if not n_eager:
+                ctx.ok("K3.eager-default", "%s: no operand is evaluated as the eager argument of a default-taking combinator (%s)" % (e.key, cfg), nontrivial=True)
         # nothing is parsed when the lazy operation itself is parsed: its parser (the `from_value` that consults the lazy
         # table) stores the operands as written — a parse of every operand up front would report an error that sits in a
         # branch that is never selected.  The unit is the parser with its closures and private helpers (not the
